@@ -2,7 +2,7 @@
 //
 // Engine E2 (enumx), differential oracle. A *logical trace* is a tuple of 1–3 spans (span 0 is the root,
 // the others are children) each carrying one field "n" whose value is drawn from
-// {int 200, int -1, float 1.5, float 2.0, "x", true}. Every logical trace is pushed through the REAL
+// {int 200, int -1, int 1500000, float 1.5, float 2.0, "x", true}. Every logical trace is pushed through the REAL
 // routers of an in-process node (fix/pipeline) into a REAL InMemCollector (fix/nodecoll, handler mode) in
 // every arrival order and with every per-span choice of wire encoding (JSON event, JSON batch, msgpack
 // batch / msgpack event with signed or unsigned, minimal or fixed-width integers and 32/64-bit floats,
@@ -62,6 +62,7 @@ type lval struct {
 var values = []lval{
 	{Name: "int200", Kind: "int", I: 200},
 	{Name: "int-1", Kind: "int", I: -1},
+	{Name: "int1500000", Kind: "int", I: 1500000}, // a whole number that JSON delivers as a float and whose %v text is in exponent form
 	{Name: "float1.5", Kind: "float", F: 1.5},
 	{Name: "float2.0", Kind: "float", F: 2.0},
 	{Name: "str-x", Kind: "str", S: "x"},
@@ -128,6 +129,10 @@ func encodings(v lval, level int) []enc {
 	}
 	var all, some, min []variant // msgpack value variants: every width / class representatives / minimal
 	switch {
+	case v.Kind == "int" && v.I >= 65536: // needs 32 bits
+		all = []variant{{lead: codec.Int32}, {lead: codec.Int64}, {lead: codec.Uint32}, {lead: codec.Uint64}}
+		some = []variant{{lead: codec.Int32}, {lead: codec.Uint64}}
+		min = []variant{{lead: codec.Int32}, {lead: codec.Uint32}}
 	case v.Kind == "int" && v.I >= 128:
 		all = []variant{{lead: codec.Int16}, {lead: codec.Int32}, {lead: codec.Int64}, {lead: codec.Uint8}, {lead: codec.Uint16}, {lead: codec.Uint32}, {lead: codec.Uint64}}
 		some = []variant{{lead: codec.Int16}, {lead: codec.Uint8}, {lead: codec.Uint64}}
@@ -917,7 +922,7 @@ func main() {
 	}
 	r.Set("bounds", map[string]any{"values": values, "spans": "1..3 (span 0 root)", "three_span_values": k3vals, "samplers": names,
 		"encodings_1span(int200)": fmt.Sprint(encodings(values[0], 1)), "encodings_2span(int200)": fmt.Sprint(encodings(values[0], 2)), "encodings_3span(int200)": fmt.Sprint(encodings(values[0], 3)),
-		"encodings_1span(float1.5)": fmt.Sprint(encodings(values[2], 1))})
+		"encodings_1span(float1.5)": fmt.Sprint(encodings(values[3], 1))})
 	r.Sample(map[string]any{"example_trace_ids": traceIDs[:3]})
 	r.Assume("'numerically equal values': an integer stays an integer on msgpack/OTLP (signedness and width vary), a float stays a float (32/64 bit, only exactly representable values); JSON renders both as a JSON number. An integer is never re-typed as a msgpack float or vice versa")
 	r.Assume("OTLP spans necessarily carry protocol-derived extra fields (name, duration_ms, span.kind …); every sampler configured here reads only field n and the trace ID, so the sampled fields are the same in all presentations")
